@@ -563,3 +563,21 @@ THEOREMS = THEOREMS + ["OdxVerif.Codec." + t for t in [
     "descs2R_roundtrip_msg_cur", "Desc2R.okM", "Desc2R.decPre_of", "Descs2R.decPre_top", "Descs2R.okAllTop",
     "Comp.ofU16LE_ok", "U16.encodeParam_eq", "U16.decodeParam_eq", "Comp.ofU16LE_val",
     "exRes_ok", "exRes_wire", "exRes_enc", "exResOverlap_ok", "exNrcR_ok", "exU16Req_ok", "exU16Req_enc"]]
+# W23 (Props/C01Nested3b.lean, Proofs/CompCompu2*.lean): LINEAR with a real physical type and DTC-DOPs with a LINEAR method as leaves;
+# a compu DOP as multiplexer switch key / dynamic-length count (Described3b); the categories the codec model does not carry — appended
+LEAN_TARGETS = LEAN_TARGETS + ["OdxVerif.Props.C01Nested3b"]
+THEOREMS = THEOREMS + ["OdxVerif.Codec." + t for t in [
+    "C01_roundtrip_nested3b", "C01_roundtrip_nested3b_whole", "C01_roundtrip_nested3b_of_described3", "C01_compu_other_unmodelled",
+    "Described3b.ok", "DescribedTop3b.ok", "Described3.to3b",
+    "encodeDop_other", "decodeDop_other", "not_convOk_other", "linMethod?_float_internal",
+    "dopP2I_linear_num", "dopI2P_linear_flt", "LinFLeaf.convOk", "LinFLeaf.comp_ok", "LinFLeaf.constComp_ok", "LinFLeaf.defaultComp_ok",
+    "LinFLeaf.described", "LinFLeaf.constDescribed", "LinFLeaf.defaultDescribed",
+    "DtcLinLeaf.convOk", "DtcLinLeaf.comp_ok", "DtcLinLeaf.constComp_ok", "DtcLinLeaf.described", "DtcLinLeaf.constDescribed",
+    "DtcLinLeaf.encode_unknown_internal", "dtcP2I_linear_int", "dtcI2P_linear_int",
+    "decodeDct_obj_exact", "encodeDop_conv", "decodeDop_conv", "encodeParam_conv", "decodeParam_conv",
+    "DComp.muxConv_okM", "DComp.muxConv_ok", "DComp.muxConv_endOk", "DComp.mux_ok_lin",
+    "DComp.dynLenFieldConv_okM", "DComp.dynLenFieldConv_endOk", "DComp.dynLenField_ok_lin",
+    "ex9_described", "ex9Temp_ok", "ex9Err_ok", "ex9Key_ok", "ex9Cnt_ok", "ex10_described", "ex10Temp_ok",
+    "C01_linear_float_leaf_ok", "ex11Temp_ok", "ex11_described", "ex9Mx_described", "ex12_described",
+    "IdLeaf.convOk", "IdLeaf.comp_ok", "IdLeaf.constComp_ok", "IdLeaf.defaultComp_ok", "IdLeaf.encode_not_admitted", "IdLeaf.described",
+    "IdLeaf.constDescribed", "IdLeaf.defaultDescribed", "ex13N_ok", "ex13R_ok", "ex13_described"]]
